@@ -198,12 +198,14 @@ def oracle(c, out, scales, prefixes=None):
 
 
 def kani_fit(report, tier):
-    kc = KaniCrate("c05", "f64", extra_src=KANI_PRELUDE)
-    for q in catalogue.CATALOGUE:
+    from props import synthdefs
+    kc = KaniCrate("c05", "f64", extra_src=KANI_PRELUDE + synthdefs.SYNTH_RS)
+    fixture = [synthdefs.DOSE, synthdefs.CHARGE, synthdefs.BUCKET, synthdefs.PRESSURE]
+    for q in catalogue.CATALOGUE + fixture:
         if q.ref is None:
             continue
         n = len(q.units)
-        path = "quantities::%s::%s" % (q.module, q.name)
+        path = ("quantities::%s::%s" % (q.module, q.name)) if q.crate == "quantities" else ("crate::synth::" + q.name)
         ref_si = q.unit(q.ref).prefix is not None
         el = [u for u in q.units if (u.prefix is not None or not ref_si)]
         extra = 'kani::cover!(w.scale() <= x && !w.is_ref_unit(), "fitted to a non-reference unit");' if len(set(u.scale for u in el)) > 1 else ""
@@ -236,8 +238,8 @@ def kani_fit(report, tier):
         assert!(w.is_ref_unit());
     """, expect="fail", unwind=14, key="canary", symbolic=False))
     report.functions.update(["HasRefUnit::_fit (compiled, real core::iter)", "generated scale/si_prefix/iter"])
-    report.bounds["kani_fit"] = "every f64 bit pattern x (NaN, +-inf, +-0, subnormals), every unit by symbolic index; unwind = units + 2; 13 result types"
-    kc.run(report, timeout=900)
+    report.bounds["kani_fit"] = "every f64 bit pattern x (NaN, +-inf, +-0, subnormals), every unit by symbolic index; unwind = units + 2; 13 catalogue result types and 4 synthetic types (one whose reference unit has no SI prefix although other units have one)"
+    kc.run(report, timeout=(480 if tier == "quick" else 3000))
     confirm_failures(report)
 
 
